@@ -37,7 +37,23 @@ fn new_domain(name: &str, params: &[&str]) -> Option<Box<dyn Domain>> {
     }
 }
 
+/// A `tracing` subscriber that enables every event and span of the datacake crates and throws it away: the arguments of the
+/// library's log statements are evaluated exactly as under any real subscriber (an arithmetic overflow or an `unwrap` inside a
+/// `warn!(..)` argument is then as visible here as it is to a user who installed one), nothing is formatted or written.
+struct EvalLogs;
+
+impl tracing::Subscriber for EvalLogs {
+    fn enabled(&self, m: &tracing::Metadata<'_>) -> bool { m.target().starts_with("datacake") }
+    fn new_span(&self, _: &tracing::span::Attributes<'_>) -> tracing::span::Id { tracing::span::Id::from_u64(1) }
+    fn record(&self, _: &tracing::span::Id, _: &tracing::span::Record<'_>) {}
+    fn record_follows_from(&self, _: &tracing::span::Id, _: &tracing::span::Id) {}
+    fn event(&self, _: &tracing::Event<'_>) {}
+    fn enter(&self, _: &tracing::span::Id) {}
+    fn exit(&self, _: &tracing::span::Id) {}
+}
+
 fn main() {
+    let _ = tracing::subscriber::set_global_default(EvalLogs);
     if std::env::var("DCH_VERBOSE").is_err() { std::panic::set_hook(Box::new(|_| {})); }
     let stdin = io::stdin();
     let stdout = io::stdout();
